@@ -3,6 +3,7 @@ use std::io::{BufRead, Write};
 
 mod bp;
 mod cc;
+mod fuzz;
 mod memhelper;
 
 fn main() {
@@ -17,6 +18,8 @@ fn main() {
         let res = match mode.as_str() {
             "cc" => cc::run(&toks),
             "bp" => bp::run(&toks),
+            "codeid" => fuzz::run_codeid(&toks),
+            "bpfuzz" => fuzz::run_bpfuzz(&toks),
             _ => panic!("unknown mode"),
         };
         writeln!(out, "{}", res).unwrap();
